@@ -2,12 +2,26 @@
    Theorems only.  Model: Model/Cache.v (the MultiTypeMap dict, errors, all as a state machine over getitem). *)
 From Coq Require Import ZArith List Bool Arith.
 Import ListNotations.
-From OvldV Require Import Model.Order Model.Ty Model.Codec Model.Resolve Model.Cache Proofs.CacheFacts.
+From OvldV Require Import Model.Order Model.Ty Model.Codec Model.Resolve Model.Cache Proofs.CacheFacts Proofs.CacheFull.
 
-(* FULL STATEMENT: for every method list and every finite sequence of dictionary accesses -- plain keys and
-   continuation keys (caller code, *types) -- each access returns what a brand-new table returns.
-   PROVED for sequences of plain accesses of any length (the accesses made by direct calls and by recurse);
-   continuation keys (call_next) are covered by the correspondence run only -- labelled partial. *)
+(* FULL STATEMENT, PROVED: for every list of handlers with distinct code objects and every finite history of
+   dictionary accesses -- plain keys and continuation keys (caller code, *types), in any order, with repeats, failing
+   and ambiguous ones -- interleaved with registrations of further handlers, each access returns exactly what a
+   brand-new table over the handlers registered so far returns (`expected` recomputes `fresh` at every access). *)
+Theorem C04_history_free : forall sub hasm chk fresh ms ops st' outs,
+  NoDup (map m_id (ms ++ regs ops)) ->
+  crun sub hasm chk fresh (cinit ms) ops = (st', outs) -> outs_of outs = expected sub hasm chk fresh ms ops.
+Proof. exact history_free. Qed.
+Print Assumptions C04_history_free.
+
+(* one access from any state satisfying the invariant: same answer as a fresh table, invariant kept *)
+Theorem C04_access_step : forall sub hasm chk fresh ms, NoDup (map m_id ms) -> forall st q st' out r,
+  FInv sub hasm chk fresh ms st -> getitem sub hasm chk fresh st q = (st', out, r) ->
+  FInv sub hasm chk fresh ms st' /\ out = Cache.fresh sub hasm chk fresh ms q.
+Proof. exact getitem_full. Qed.
+Print Assumptions C04_access_step.
+
+(* the earlier statement for plain accesses only, without the distinctness hypothesis *)
 Theorem C04_history_free_partial : forall sub hasm chk fresh ms ops,
   forallb plain_op ops = true ->
   Forall2 (op_fresh sub hasm chk fresh ms) ops (snd (crun sub hasm chk fresh (cinit ms) ops)).
@@ -30,3 +44,13 @@ Example C04_reachable_nontrivial :
                       [CGet (mkQ None (mkKey [Cls 1] [])); CGet (mkQ None (mkKey [Cls 3] []))]) in
   length (cs_dict st) = 1 /\ length (cs_err st) = 1.
 Proof. vm_compute. split; reflexivity. Qed.
+
+(* non-vacuity of the full statement: a history with a continuation access that finds a next handler *)
+Definition wms2 : list meth := [ mkMeth 0 [Cls 0] [] 1 [] 0 0; mkMeth 1 [Cls 1] [] 1 [] 0 0 ].
+Example C04_full_nontrivial_distinct : NoDup (map m_id wms2).
+Proof. repeat constructor; simpl; intuition discriminate. Qed.
+Example C04_full_nontrivial :
+  outs_of (snd (crun (hsub wh) (hhasm wh) (hchk wh) (hfresh wh) (cinit wms2)
+                      [CGet (mkQ (Some 1) (mkKey [Cls 1] [])); CGet (mkQ None (mkKey [Cls 1] []))]))
+  = [Some (ORun 0); Some (ORun 1)].
+Proof. vm_compute. reflexivity. Qed.
